@@ -39,7 +39,7 @@ Fixpoint gather (D : decls) (e : expr) {struct e} : ctx :=
   match e with
   | ELit w sg _ _ => mkCtx w sg
   | EVar x => mkCtx (d_width (D x)) (d_signed (D x))
-  | ESel x hi lo => mkCtx (hi - lo + 1) false
+  | ESel x hi lo => mkCtx (hi - lo + 1) (d_signed (D x))   (* veryl keeps the variable's signedness *)
   | EUn o a => if un_selfdet o then mkCtx 1 false else gather D a
   | EBin o a b =>
       let ga := gather D a in
@@ -163,6 +163,31 @@ Fixpoint ev (md : mode) (D : decls) (st : state) (c : ctx) (e : expr) {struct e}
   | ESign sg a =>
       let g := gather D a in
       ext (sg && cs c) (cw g) (cw c) (ev md D st g a)
+  end.
+
+(* ------------------------------------------------------------------ validated fragment *)
+(* The simulator's engines disagree with each other (findings, design/C02.md) on: part selects of signed
+   variables, $signed/$unsigned applied to anything but a variable or a concatenation, `e as w` on a
+   signed operand or on an operator expression that is not really narrowed.  The reference is validated
+   only on programs avoiding these forms; [supported] is checked by the driver on every program. *)
+Definition leaflike (e : expr) : bool :=
+  match e with ELit _ _ _ _ | EVar _ | ESel _ _ _ | ECat _ => true | _ => false end.
+
+Fixpoint supported (D : decls) (e : expr) {struct e} : bool :=
+  match e with
+  | ELit _ _ _ _ => true
+  | EVar _ => true
+  | ESel x _ _ => negb (d_signed (D x))
+  | EUn _ a => supported D a
+  | EBin o a b => match o with BPow => false | _ => supported D a && supported D b end
+  | ETern c a b => supported D c && supported D a && supported D b
+  | ECat items =>
+      (fix go (l : list (expr * N)) : bool :=
+         match l with [] => true | (a, _) :: t => supported D a && go t end) items
+  | ECast w a =>
+      supported D a && negb (cs (gather D a)) && (leaflike a || (w <? cw (gather D a)))
+  | ESign _ a =>
+      supported D a && match a with EVar _ | ECat _ => true | _ => false end
   end.
 
 (* variables read by an expression *)
